@@ -45,7 +45,10 @@ def feat(rng, gtf=False):
         if rng.random() < 0.5:
             attrs.append(["Parent", rng.sample(["p", "q", "r"], rng.choice([1, 1, 2]))])
     if rng.random() < 0.6:
-        attrs.append(["Name", rng.sample(["n1", "n2", "n3"], rng.choice([1, 1, 2]))])
+        vals = rng.sample(["n1", "n2", "n3"], rng.choice([1, 1, 2]))
+        if rng.random() < 0.15:
+            vals = vals + [vals[0]]  # the same value twice on one line ("union without repeats" must still hold)
+        attrs.append(["Name", vals])
     if rng.random() < 0.3:
         attrs.append(["note", [rng.choice(["x", "y"])]])
     extra = []
@@ -74,7 +77,7 @@ def gen(rng, tier):
     memory = rng.random() < 0.15
     if memory:
         steps = [st for st in steps if st["op"] not in ("reopen", "restart")]
-    return {"gtf": gtf, "fmf": fmf, "steps": steps, "memory": memory, "fault_profile": rng.random() < 0.1, "fault_seed": rng.getrandbits(32)}
+    return {"gtf": gtf, "fmf": fmf, "steps": steps, "memory": memory, "fault_profile": rng.random() < (0.1 if not memory else 0.5), "fault_seed": rng.getrandbits(32)}
 
 
 def run(case):
@@ -189,11 +192,11 @@ def run(case):
                 break
         out["stats"] = w.stats
     hard_v = [v for v in V if v["sig"].get("kind") != "replace_stale_parent_link"]
-    if case.get("fault_profile") and not gtf and not case.get("memory") and not hard_v and not out.get("discarded"):
+    if case.get("fault_profile") and not gtf and not hard_v and not out.get("discarded"):
         # the same collision history under faults: source failure positions, sql error / cancel / crash points,
         # then reopen/restart and a further update (relaxed C10-style oracle: pre-state or prefix, ids never recycle)
         from checks import c10
-        vs, st2, pr2 = c10.fault_profile(case["steps"], {"fmf": list(fmf)}, case["fault_seed"], "C05.faulted")
+        vs, st2, pr2 = c10.fault_profile(case["steps"], {"fmf": list(fmf), "memory": case.get("memory")}, case["fault_seed"], "C05.faulted")
         V.extend(v for v in vs if v["sig"].get("kind") != "replace_stale_parent_link" or True)
         c10._merge_stats(out["stats"], st2)
         for k2, v2 in pr2.items():
